@@ -32,7 +32,102 @@ macro_rules! both {
     }};
 }
 
+/// further doors to the same header (the `*HeaderSlice` types with `to_header()`, the deprecated
+/// `read_from_slice` aliases): each has to accept exactly what `from_slice` accepts and hand out the same
+/// header.  Returns the list of doors that differ.
+#[allow(deprecated)]
+fn more_doors(op: &str, b: &[u8]) -> Vec<String> {
+    fn cmp<T: Debug, E>(
+        diffs: &mut Vec<String>,
+        name: &str,
+        main: &Option<String>,
+        other: Result<T, E>,
+    ) {
+        let o = other.ok().map(|v| format!("{:?}", v));
+        if &o != main {
+            diffs.push(format!("{}={}", name, o.unwrap_or_else(|| "err".to_string())));
+        }
+    }
+    let mut d = Vec::new();
+    match op {
+        "impl.dec.read_eth2" => {
+            let m = Ethernet2Header::from_slice(b).ok().map(|x| format!("{:?}", x.0));
+            cmp(&mut d, "header_slice", &m, Ethernet2HeaderSlice::from_slice(b).map(|s| s.to_header()));
+            cmp(&mut d, "read_from_slice", &m, Ethernet2Header::read_from_slice(b).map(|x| x.0));
+        }
+        "impl.dec.read_vlan" => {
+            let m = SingleVlanHeader::from_slice(b).ok().map(|x| format!("{:?}", x.0));
+            cmp(&mut d, "header_slice", &m, SingleVlanHeaderSlice::from_slice(b).map(|s| s.to_header()));
+            cmp(&mut d, "read_from_slice", &m, SingleVlanHeader::read_from_slice(b).map(|x| x.0));
+        }
+        "impl.dec.read_sll" => {
+            let m = LinuxSllHeader::from_slice(b).ok().map(|x| format!("{:?}", x.0));
+            cmp(&mut d, "header_slice", &m, LinuxSllHeaderSlice::from_slice(b).map(|s| s.to_header()));
+        }
+        "impl.dec.read_macsec" => {
+            let m = MacsecHeader::from_slice(b).ok().map(|x| format!("{:?}", x));
+            cmp(&mut d, "header_slice", &m, MacsecHeaderSlice::from_slice(b).map(|s| s.to_header()));
+        }
+        "impl.dec.read_ipv4" => {
+            let m = Ipv4Header::from_slice(b).ok().map(|x| format!("{:?}", x.0));
+            cmp(&mut d, "header_slice", &m, Ipv4HeaderSlice::from_slice(b).map(|s| s.to_header()));
+            cmp(&mut d, "read_from_slice", &m, Ipv4Header::read_from_slice(b).map(|x| x.0));
+        }
+        "impl.dec.read_ipv6" => {
+            let m = Ipv6Header::from_slice(b).ok().map(|x| format!("{:?}", x.0));
+            cmp(&mut d, "header_slice", &m, Ipv6HeaderSlice::from_slice(b).map(|s| s.to_header()));
+            cmp(&mut d, "read_from_slice", &m, Ipv6Header::read_from_slice(b).map(|x| x.0));
+        }
+        "impl.dec.read_ah" => {
+            let m = IpAuthHeader::from_slice(b).ok().map(|x| format!("{:?}", x.0));
+            cmp(&mut d, "header_slice", &m, IpAuthHeaderSlice::from_slice(b).map(|s| s.to_header()));
+        }
+        "impl.dec.read_rawext" => {
+            let m = Ipv6RawExtHeader::from_slice(b).ok().map(|x| format!("{:?}", x.0));
+            cmp(&mut d, "header_slice", &m, Ipv6RawExtHeaderSlice::from_slice(b).map(|s| s.to_header()));
+        }
+        "impl.dec.read_frag" => {
+            let m = Ipv6FragmentHeader::from_slice(b).ok().map(|x| format!("{:?}", x.0));
+            cmp(&mut d, "header_slice", &m, Ipv6FragmentHeaderSlice::from_slice(b).map(|s| s.to_header()));
+        }
+        "impl.dec.read_udp" => {
+            let m = UdpHeader::from_slice(b).ok().map(|x| format!("{:?}", x.0));
+            cmp(&mut d, "header_slice", &m, UdpHeaderSlice::from_slice(b).map(|s| s.to_header()));
+            cmp(&mut d, "read_from_slice", &m, UdpHeader::read_from_slice(b).map(|x| x.0));
+        }
+        "impl.dec.read_tcp" => {
+            let m = TcpHeader::from_slice(b).ok().map(|x| format!("{:?}", x.0));
+            cmp(&mut d, "header_slice", &m, TcpHeaderSlice::from_slice(b).map(|s| s.to_header()));
+            cmp(&mut d, "read_from_slice", &m, TcpHeader::read_from_slice(b).map(|x| x.0));
+        }
+        "impl.dec.read_icmp4" => {
+            let m = Icmpv4Header::from_slice(b).ok().map(|x| format!("{:?}", x.0));
+            cmp(&mut d, "slice_header", &m, Icmpv4Slice::from_slice(b).map(|s| s.header()));
+        }
+        "impl.dec.read_icmp6" => {
+            let m = Icmpv6Header::from_slice(b).ok().map(|x| format!("{:?}", x.0));
+            cmp(&mut d, "slice_header", &m, Icmpv6Slice::from_slice(b).map(|s| s.header()));
+        }
+        "impl.dec.read_iph" => {
+            let m = IpHeaders::from_slice(b).ok().map(|x| format!("{:?}", x.0));
+            cmp(&mut d, "read_from_slice", &m, IpHeaders::read_from_slice(b).map(|x| x.0));
+        }
+        _ => {}
+    }
+    d
+}
+
 pub fn run_on(op: &str, arg: Option<u16>, b: &[u8]) -> Option<String> {
+    let main = run_main(op, arg, b)?;
+    let d = more_doors(op, b);
+    Some(if d.is_empty() {
+        main
+    } else {
+        format!("{}!doors-differ({})", main, d.join(";"))
+    })
+}
+
+fn run_main(op: &str, arg: Option<u16>, b: &[u8]) -> Option<String> {
     Some(match (op, arg) {
         ("impl.dec.read_eth2", None) => both!(b, |b: &[u8]| Ethernet2Header::from_slice(b).map(|(h, rest)| (h, b.len() - rest.len())), Ethernet2Header::read),
         ("impl.dec.read_sll", None) => both!(b, |b: &[u8]| LinuxSllHeader::from_slice(b).map(|(h, rest)| (h, b.len() - rest.len())), LinuxSllHeader::read),
